@@ -48,8 +48,8 @@ class Engine:
             return "'%s' was encoded as %s, which decodes to a different value" % (rec["text"], bytes(o["bytes"]).hex())
 
         report(ctx, "C10", verdicts, what)
-        if thorough and ctx.only is None:
-            self.other_targets(ctx)
+        if ctx.only is None:
+            self.other_targets(ctx)   # relocations of x86_64 / arm / thumb (both tiers)
 
     def other_targets(self, ctx):
         """Relocations of x86_64 / arm / thumb, judged with the field layouts of tla/Reloc.tla (module of C11)."""
